@@ -13,6 +13,11 @@ type envState struct {
 	timers []*timerModel
 	fs     *vfs
 	extra  map[string]interface{}
+	randCalls   int
+	randOuts    [][]*Term
+	randVar     map[int]int
+	randClaimed map[int]bool
+	secretVars  map[int]bool
 }
 
 type timerModel struct {
@@ -23,7 +28,7 @@ type timerModel struct {
 }
 
 func newEnvState(in *Interp) *envState {
-	return &envState{in: in, extra: map[string]interface{}{}}
+	return &envState{in: in, extra: map[string]interface{}{}, randVar: map[int]int{}, randClaimed: map[int]bool{}, secretVars: map[int]bool{}}
 }
 
 func (e *envState) snapshotExtra() map[string]interface{} {
@@ -59,6 +64,7 @@ func (in *Interp) zeroTime() Value {
 }
 
 func RegisterEnv(p *Program) {
+	registerStrconv(p)
 	registerVFS(p)
 	registerTimeRand(p)
 }
